@@ -564,27 +564,8 @@ pub fn check_structure(b: &Bridge, o: &Obs) -> Vec<Finding> {
             f.push(Finding::new("C10", "tour.node_twice", format!("{}: {:?}", v, b.ids(n))));
         }
     }
-    for (v, t) in &o.dummies {
-        if !t.is_dummy {
-            f.push(Finding::new("C10", "dummy.not_marked_dummy", format!("{}", v)));
-        }
-        if t.nodes.is_empty() || t.nodes.iter().any(|n| !matches!(n, N::T(_))) {
-            f.push(Finding::new(
-                "C10",
-                "dummy.non_service_node",
-                format!("{}: {:?}", v, b.ids(&t.nodes)),
-            ));
-        }
-        for w in t.nodes.windows(2) {
-            if !inst.connectable(w[0], w[1]) {
-                f.push(Finding::new(
-                    "C10",
-                    "dummy.not_connectable",
-                    format!("{}: {} cannot be followed by {}", v, inst.node_id(w[0]), inst.node_id(w[1])),
-                ));
-            }
-        }
-    }
+    // (dummy tours are not constrained by the property: they may hold maintenance nodes that a
+    // real vehicle handed over; nothing is demanded of them here)
     // formations <-> tours
     for (n, form) in &o.formations {
         let set: BTreeSet<&VehicleIdx> = form.iter().collect();
